@@ -1,5 +1,6 @@
 """C13 determinism, C14 independence, C16 entry points."""
 import itertools
+import hashlib
 import json
 import os
 import random
@@ -89,6 +90,9 @@ def multi_programs(seed, n):
     return out
 
 
+ROOTLESS = "packet A {\n    u8 x,\n}\n\npacket B {\n    A a,\n    string s,\n}\n\npacket C {\n    u16 k,\n    match k as m {\n        1 : A,\n        2 : B,\n    },\n}\n"
+
+
 def run_c13(ctx):
     regenerate_facts(ctx)
     check_obligations(ctx, "C13")
@@ -128,6 +132,27 @@ def run_c13(ctx):
             if trees[0] != trees[1]:
                 bad = sorted(k for k in set(trees[0]) | set(trees[1]) if trees[0].get(k) != trees[1].get(k))
                 ctx.finding("nondeterministic/process/%s" % file_class(bad[0]), "two runs of the compile command write different bytes", {"dsl": t, "files": bad[:5]})
+        # a compilation that fails part-way (no root packet: Lua / Python / C++ refuse, Rust / Go / Java do not) must leave the
+        # same files every time, too: what is on disk then depends on the ORDER in which the targets are served
+        f = os.path.join(d, "rootless.dsl")
+        with open(f, "w") as fh:
+            fh.write(ROOTLESS)
+        for langs in (["go", "python"], ["rust", "lua"], ["java", "cpp", "go"], list(ALL)):
+            outcomes = {}
+            for run in range(10 if ctx.tier == "quick" else 40):
+                o = os.path.join(d, "r")
+                rm(o)
+                args = [cbin, "compile", "-f", f]
+                for lang in langs:
+                    args += [FLAG[lang], os.path.join(o, lang)]
+                p = subprocess.run(args, cwd=d, capture_output=True, timeout=120)
+                tree = read_tree(o)
+                outcomes.setdefault((p.returncode, tuple(sorted((k, hashlib.sha256(v).hexdigest()) for k, v in tree.items()))), run)
+                ctx.count("cli_partial_failure_runs")
+            if len(outcomes) > 1:
+                ctx.finding("nondeterministic/process/partial-failure",
+                            "the same failing invocation (%s, no root packet) leaves different file sets from run to run" % "+".join(langs),
+                            {"dsl": ROOTLESS, "targets": langs, "outcomes": [{"exit": k[0], "files": [n for n, _ in k[1]], "first_seen_in_run": v} for k, v in outcomes.items()]})
     finally:
         rm(d)
     if ctx.broken and not ctx.violations:
@@ -367,6 +392,28 @@ def run_c16(ctx):
                         ctx.finding("compile/%s%s" % ("over-existing-files" if stale else "implicit" if implicit else "explicit", "" if style == "short" else "/" + style),
                                     "compile%s leaves files that differ from the generators' (exit %d)" % (" over existing, longer files" if stale else " without the sub-command word" if implicit else "", rc),
                                     {"dsl": t, "args": args, "differing": bad[:6], "stray": sorted(stray)[:5], "stdout": out[-400:]})
+                    else:
+                        ctx.count("compile_ok")
+                # several targets into ONE directory: every target's files land there (in the CLI's order, should two targets
+                # ever use one file name); and two targets into one directory, the others elsewhere
+                for shared in ([x for x in ALL if x in sub], [x for x in ALL if x in sub][:2]):
+                    if len(shared) < 2:
+                        continue
+                    o = os.path.join(d, "out")
+                    rm(o)
+                    dirs = {lang: os.path.join(o, "shared" if lang in shared else lang) for lang in sub}
+                    want_s = {}
+                    for r in exp.get("runs", []):
+                        for name, body in (r.get("files") or {}).items():
+                            want_s[os.path.normpath(os.path.join(os.path.relpath(dirs[r["lang"]], o), name))] = body.encode("utf-8")
+                    args = compile_args("short", False, f, [(lang, dirs[lang]) for lang in sub], rng)
+                    rc, out, err = checks_front.cli(cbin, args, d)
+                    got = read_tree(o)
+                    ctx.count("compile_runs")
+                    if rc != 0 or got != want_s:
+                        bad = sorted(k for k in set(got) | set(want_s) if got.get(k) != want_s.get(k))
+                        ctx.finding("compile/shared-directory", "compile with %s writing into one directory does not leave every generator's files there (exit %d)" % ("+".join(shared), rc),
+                                    {"dsl": t, "args": args, "differing": bad[:8], "stdout": out[-400:]})
                     else:
                         ctx.count("compile_ok")
     finally:
